@@ -30,7 +30,9 @@ prop(
          "each slice from the bitmap and logs (start,end,step). Failover layer: the same query through a failover group of 2-3 bitmap "
          "servers holding DIFFERENT data (the later ones' bitmaps are the first one's shifted/inverted); every upstream but the last fails some "
          "slices (per-slice fault table: 503 / connection reset / timeout) and answers the others; the result must be the unsliced evaluation on "
-         "the server whose URI it carries, never a per-slice mix (non-trivial there: >=2 slices and >=2 upstreams saw requests). "
+         "the server whose URI it carries, never a per-slice mix; 0-2 further windows of the same expression and step (narrower, wider, "
+         "shifted: they share aligned slices) are asked AT THE SAME TIME on the same group, answered slices take a drawn 0-6 ms while failing ones "
+         "fail at once, and every call that returns without error is judged for its own window (a call that fails has no result to judge) (non-trivial there: >=2 slices and >=2 upstreams saw requests). "
          "Non-trivial: the request log shows >=2 slices and, at some slice boundary, some "
          "series has a run crossing it, a run ending/starting exactly on it, or a one-sample hole/island adjacent to it. Classes: "
          "layer : start on/off the 2h grid : step divides 2h or not : #slices bucket : boundary relations present.",
